@@ -43,7 +43,7 @@ _MATCH = [(r'FileReader::tolower\(&(\w+)\);', lambda m: 'env_tolower(&%s);' % m.
           (r'part\.first\.length\(\)', 'part.first.n', (1, 3)),
           (r'string chk = m_parts\[idx\+1\]\.first;', 'vstr chk = m_parts.e[idx+1].first;', 1),
           (r'string value;', 'vstr value = vstr_new();', 1),
-          (r'str\.find\(chk, last\)', 'vstr_find_str(&str, &chk, last)', 1),
+          (r'str\.(find|find_first_of|rfind|find_last_of)\(chk, last\)', lambda m: '%s(&str, &chk, last)' % {'find': 'vstr_find_str', 'find_first_of': 'vstr_find_first_of_str', 'rfind': 'vstr_rfind_str', 'find_last_of': 'vstr_find_last_of_str'}[m.group(1)], 1),
           (r'str\.find\(separator, last\)', 'vstr_find_str(&str, separator, last)', 1),
           (r'str\.substr\(last\)', 'vstr_substr(&str, last, VSTR_NPOS)', (1, 3)),
           (r'str\.substr\(last, (pos[^()]*)\)', lambda m: 'vstr_substr(&str, last, %s)' % m.group(1), 1),
